@@ -491,6 +491,8 @@ Proof.
     destruct (deleted_of s2 i); [notok HM2|].
     destruct (existsb _ ch); [notok HM2|].
     cbn [fst snd p_op is_ok o_status o_child mk_out].
+    destruct (fetch_ok_inv c _ _ _ _ _ _ Ef0) as [m0 [Hm0 [Hv0 _]]].
+    rewrite (expect_of_fetch c _ _ _ _ Hm0 Hv0).
     assert (HR3 : forall m, step_rel (eq i) s (create_children s2 i ch (List.length (st_leaves s)) m)).
     { intros m. eapply step_rel_trans; [exact HR1|].
       eapply step_rel_trans; [eapply step_rel_force; eauto|apply step_rel_create_children]. }
